@@ -1,7 +1,7 @@
 (* Proofs about Model/Body.v: the chunked reader inverts the chunked encoding (C34),
    the readers respect a positive limit (C07), no model loop runs out of fuel. *)
 From Coq Require Import Lia ZifyBool ZifyN ZifyNat.
-From FH Require Import Model.Base Gen.GenC30 Gen.GenC34 Model.Ints Spec.IntsSpec Proof.IntsProof Model.Body.
+From FH Require Import Model.Base Gen.GenC30 Gen.GenC34 Model.Ints Spec.IntsSpec Proof.IntsProof Model.Body Model.BodyWrite.
 Open Scope Z_scope.
 
 (* ------------------------------------------------------------------ *)
@@ -124,7 +124,6 @@ Proof. unfold readBodyChunked. destruct (0 <? blen dst); [discriminate|]. apply 
 (* ------------------------------------------------------------------ *)
 (* the chunked encoding, with chunk extensions                         *)
 (* ------------------------------------------------------------------ *)
-Definition hex_of (n : Z) : bytes := match writeHexInt maxHexIntChars64 n with Some d => d | None => [] end.
 (* chunk-ext as the reader accepts it: empty, or ';' followed by anything without CR / LF *)
 Definition ext_good (e : bytes) : Prop :=
   wf_bytes e /\ match e with
@@ -594,4 +593,49 @@ Proof.
   destruct (rbc_enc_toolarge cs (S (length (enc_chunks_ext cs elast ++ rest))) L [] elast rest 0 Hcs He Hr ltac:(lia) HL
               ltac:(change (blen []) with 0; lia) ltac:(change (blen []) with 0; lia) Ha) as (d & p & E & Hd).
   rewrite E. exists d, p. repeat split; [exact Hd].
+Qed.
+
+(* ---- the plain encoder of Model/BodyWrite.v is the extension-free instance ---- *)
+Definition noext (cs : list bytes) : list (bytes * bytes) := map (fun c => (c, [])) cs.
+Lemma enc_chunks_noext cs : enc_chunks cs = enc_chunks_ext (noext cs) [].
+Proof.
+  unfold enc_chunks, enc_chunks_ext, enc_last, enc_last_ext, noext. cbn [app]. f_equal.
+  induction cs as [|c cs IH]; cbn [map concat]; [reflexivity|]. rewrite IH. reflexivity.
+Qed.
+Lemma map_fst_noext cs : map fst (noext cs) = cs.
+Proof. unfold noext. rewrite map_map. cbn [fst]. apply map_id. Qed.
+Definition chunk_ok (c : bytes) : Prop := c <> [] /\ wf_bytes c /\ blen c < 16 ^ maxHexIntChars64.
+Lemma noext_good cs : Forall chunk_ok cs -> Forall chunk_good (noext cs).
+Proof.
+  unfold noext. intros H. apply Forall_map. eapply Forall_impl; [|exact H].
+  intros c (H1 & H2 & H3). unfold chunk_good. cbn [fst snd]. repeat split; try assumption. constructor.
+Qed.
+Lemma ext_good_nil : ext_good []. Proof. split; [constructor|exact I]. Qed.
+
+(* C34: reading what the chunked writer wrote gives back the chunks, for every split of the
+   body into chunks, with anything (the next message) behind it *)
+Theorem chunked_codec cs L rest : Forall chunk_ok cs -> wf_bytes rest ->
+  (L <= 0 \/ blen (concat cs) <= L) -> blen (concat cs) + 2 <= maxAlloc ->
+  exists pk, readBodyChunked L [] (enc_chunks cs ++ rest) = BOk (concat cs) rest pk /\ pk <= blen (concat cs) + 2.
+Proof.
+  intros Hcs Hr HL Ha. rewrite enc_chunks_noext. unfold readBodyChunked. change (0 <? blen []) with false. cbv iota.
+  assert (Ht : total (noext cs) = blen (concat cs)) by (unfold total; now rewrite map_fst_noext).
+  destruct (rbc_enc (noext cs) (S (length (enc_chunks_ext (noext cs) [] ++ rest))) L [] [] rest 0
+              (noext_good cs Hcs) ext_good_nil Hr ltac:(lia)
+              ltac:(change (blen []) with 0; rewrite Ht; lia) ltac:(change (blen []) with 0; rewrite Ht; lia)) as (pk & E & Hpk).
+  exists pk. rewrite E, map_fst_noext. split; [reflexivity|]. change (blen []) with 0 in Hpk. rewrite Ht in Hpk.
+  pose proof (blen_nonneg (concat cs)). lia.
+Qed.
+
+(* the complete message (empty trailer section) through Request / Response body reading *)
+Theorem chunked_message_codec parseTr cs L rest : Forall chunk_ok cs -> wf_bytes rest ->
+  (L <= 0 \/ blen (concat cs) <= L) -> blen (concat cs) + 2 <= maxAlloc ->
+  exists pk, reqReadBody parseTr (-1) L (enc_chunked_message cs ++ rest) = BOk (concat cs) rest pk /\
+             respReadBody parseTr (-1) L 0 [] (enc_chunked_message cs ++ rest) = BOk (concat cs) rest pk.
+Proof.
+  intros Hcs Hr HL Ha. unfold enc_chunked_message. rewrite <- app_assoc.
+  assert (Hr' : wf_bytes (strCRLF ++ rest)) by (apply wf_app; split; [rewrite strCRLF_eq; repeat constructor|exact Hr]).
+  destruct (chunked_codec cs L (strCRLF ++ rest) Hcs Hr' HL Ha) as (pk & E & _).
+  exists pk. unfold reqReadBody, respReadBody. cbn [Z.geb Z.gtb Z.compare Z.eqb andb]. rewrite E.
+  unfold after_trailer, readTrailer. rewrite strCRLF_eq. cbn. split; reflexivity.
 Qed.
